@@ -93,6 +93,7 @@ def project_image(img, rest_ids=None, idspace=False):
             me = max([it[2] for it in items], default=0)
             out.append({"off": b["offset"], "size": b["size"], "zlibOk": 1 if b.get("zlibOk") and "error" not in b else 0, "rawLen": b.get("rawLen", 0),
                         "chrom": items[0][0] if items else 0, "onechrom": 1 if len(cs) == 1 else 0, "nitems": len(items), "minstart": ms, "maxend": me,
+                        "lastchrom": items[-1][0] if items else 0, "firststart": items[0][1] if items else 0, "lastend": items[-1][2] if items else 0,
                         "hs": sec.get("start", ms) if (kind == "bw" and not zoom) else ms, "he": sec.get("end", me) if (kind == "bw" and not zoom) else me,
                         "items": items})
         return out
